@@ -108,3 +108,57 @@ def table_offset_of(name):
         if info["regex"].search(s):
             return info["offset"]
     return None
+
+
+# ------------------------------------------------------------------ DST edges
+DST_ZONES = ["America/New_York", "Europe/London", "Europe/Berlin", "Australia/Sydney", "Australia/Lord_Howe",
+             "America/Sao_Paulo", "America/St_Johns", "Pacific/Auckland", "Asia/Tehran", "Africa/Cairo", "America/Havana",
+             "Atlantic/Azores", "America/Santiago", "Pacific/Chatham", "Europe/Moscow", "Asia/Kolkata"]
+
+
+def dst_edges(zone, ylo=1971, yhi=2037):
+    """[(utc transition instant, offset before, offset after)] of a pytz zone, read from pytz's own tables:
+    the wall clock jumps from t+before to t+after (gap when after > before, fold when after < before)."""
+    import pytz
+
+    tz = pytz.timezone(zone)
+    tts = getattr(tz, "_utc_transition_times", None)
+    if not tts:
+        return []
+    out = []
+    for i in range(1, len(tts)):
+        t = tts[i]
+        if not (ylo <= t.year <= yhi):
+            continue
+        before, after = tz._transition_info[i - 1][0], tz._transition_info[i][0]
+        if before != after:
+            out.append((t, before, after))
+    return out
+
+
+def dst_wall_case(rnd, zone=None, ylo=1971, yhi=2037):
+    """A local wall time inside a gap or a fold (or right at its edges) of a DST zone, with a nearby reference.
+    Returns dict(zone, kind 'gap'|'fold', wall (naive local, minute precision), base (naive), t_utc)."""
+    for _ in range(50):
+        z = zone or rnd.choice(DST_ZONES)
+        edges = dst_edges(z, ylo, yhi)
+        if edges:
+            break
+    else:
+        raise RuntimeError("no DST edges found")
+    t, before, after = rnd.choice(edges)
+    lo, hi = sorted([t + before, t + after])
+    span = int((hi - lo).total_seconds() // 60)
+    k = rnd.random()
+    if k < 0.7:
+        wall = lo + timedelta(minutes=rnd.randrange(max(span, 1)))
+    elif k < 0.85:
+        wall = rnd.choice([lo, hi, lo - timedelta(minutes=1), hi + timedelta(minutes=1)])
+    else:
+        wall = lo + timedelta(minutes=rnd.randrange(-180, 180))
+    wall = wall.replace(second=0, microsecond=0)
+    day0 = wall.replace(hour=0, minute=0)
+    base = rnd.choice([day0, day0 + timedelta(hours=12), day0 + timedelta(hours=23, minutes=59), wall,
+                       wall + timedelta(minutes=rnd.choice([-61, -30, -1, 1, 30, 61])), day0 - timedelta(hours=12),
+                       day0 + timedelta(days=1, hours=1), t, t + timedelta(minutes=rnd.randrange(-120, 120))])
+    return {"zone": z, "kind": "gap" if after > before else "fold", "wall": wall, "base": base.replace(microsecond=0), "t_utc": t}
